@@ -47,6 +47,12 @@ func checkC10(R *Run) {
 	R.floor("publish-after-success", 2)
 	R.ruleIncompleteAppend(2, "hotline.UploadFolderHandler")
 	R.ruleResumeOffsetReply()
+	R.rule("declared-size-copy", "(as C09) each item's data fork is copied with io.CopyN for exactly the size its header declares")
+	R.rule("receive-errors-propagate", "(as C09) a stream that ends inside an item is an error, so the item stays a partial file")
+	R.rule("partial-preserved", "(as C09) nothing removes or truncates an item's partial file")
+	R.ruleDeclaredSizeCopy()
+	R.ruleReceiveErrors()
+	R.rulePartialPreserved()
 	R.rule("path-taint", "(as C07) restricted to the folder transfer handlers: item paths read from the transfer connection are anchored before they are joined to the upload folder")
 	R.rulePathTaint("path-taint", func(fn *ssa.Function) bool {
 		n := fname(rootFn(fn))
